@@ -8,6 +8,7 @@
 
     Executable model only; the proofs are in Proofs/UdpTc.v. *)
 From Verif Require Import Base.Prelude Gen.Constants.
+From Verif Require Model.Addr.   (* only for [udp_upstream_dials] at the end *)
 Open Scope N_scope.
 
 (** * The DNS header (RFC 1035 4.1.1) *)
@@ -198,3 +199,24 @@ Fixpoint run_session (listening : bool) (s : sess) (xs : list step) : list step_
   end.
 
 Definition sess0 : sess := mkSess false 0.
+
+(** * Where the two transports of the "udp" upstream connect (NewUpstream, case "", "udp")
+
+    One string, [dialAddr = joinPort(host, port)] with [(host, port)] from
+    [parseDialAddr(addrUrlHost, opt.DialAddr, 53)], is dialled by both closures:
+    [dialUdpPipeline] ("udp") and [dialTcpNetConn] ("tcp").  The url parsing and
+    [parseDialAddr] are the C18 model (Model/Addr.v); [None] = NewUpstream
+    returns an error. *)
+Record udp_dials := mkDials { d_udp : list N * N; d_tcp : list N * N }.
+
+Definition udp_upstream_dials (addr dial_addr : list N) : option udp_dials :=
+  match Addr.new_upstream Addr.ip_literal addr dial_addr false with
+  | Some t =>
+    match Addr.t_transport t with
+    | Addr.TUdp =>
+      let dial_addr := (Addr.t_host t, Addr.t_port t) in
+      Some (mkDials dial_addr dial_addr)
+    | _ => None
+    end
+  | None => None
+  end.
